@@ -450,14 +450,15 @@ pub fn run(args: &Args, out: &mut Out) {
     if let Some(lines) = args.request_lines() {
         for line in lines {
             let f: Vec<&str> = line.split('\t').collect();
-            if f.len() >= 4 && f[0] == "C01.vfn" {
+            if f.len() >= 4 && (f[0] == "C01.vfn" || f[0] == "C01.vex") {
                 let src = unescape(f[1]);
                 let vecs = vrun::parse_vvectors(f[3]).unwrap_or_else(|| vec![vec![]]);
                 let mut rng = Rng::new(1);
+                let run = if f[0] == "C01.vex" { vrun::vex_program } else { vrun::vrun_program };
                 if f[2] == "-" {
-                    vrun::vrun_program(&src, None, 3, &mut rng, out, &mut hist);
+                    run(&src, None, 3, &mut rng, out, &mut hist);
                 } else {
-                    vrun::vrun_program(&src, Some((f[2], &vecs)), vecs.len(), &mut rng, out, &mut hist);
+                    run(&src, Some((f[2], &vecs)), vecs.len(), &mut rng, out, &mut hist);
                 }
                 continue;
             }
@@ -498,6 +499,16 @@ pub fn run(args: &Args, out: &mut Out) {
         if let Err(pn) = guard(|| vrun::vrun_program(&src, None, 6, &mut arng, out, &mut hist)) {
             hist.add("harness-panic");
             out.case(&format!("C01.vfn\t{}\t-\t\t-\t-", one_line(&src)), "harness-panic", &format!("SKIP:harness panic {}", pn));
+        }
+    }
+    // expression functions of the Lean vector layer (C01.vex): model tree / values compared, oracle as above
+    let nx = if args.n.is_some() { n } else if args.thorough() { 4000 } else { 400 };
+    for k in 0..nx {
+        let src = vrun::vex_source(args.seed, k);
+        let mut arng = Rng::new(args.seed ^ (k.wrapping_mul(0x9E37_79B9_7F4A_7C15)) ^ 0x7e8);
+        if let Err(pn) = guard(|| vrun::vex_program(&src, None, 6, &mut arng, out, &mut hist)) {
+            hist.add("harness-panic");
+            out.case(&format!("C01.vex\t{}\t-\t\t-\t-", one_line(&src)), "harness-panic", &format!("SKIP:harness panic {}", pn));
         }
     }
     // exhaustive operator-nesting shapes (every tier): one tiny function per program, fixed argument grid
